@@ -20,6 +20,10 @@ CHECKS = {
    technique="TLA+ spec ApproxEval (exact dyadic Gaussian messages, symbolic scales, levels, degrees, errors): TLC-generated programs replayed on ckks.Evaluator; TLC trace validation",
    text="TLC enumerates every single call from four preset register files (degree-2 products, rescaled and up-scaled operands, unequal scales and degrees, three key configurations) and simulates longer programs over all operand kinds (ciphertext, plaintext, seven scalar types, four vector types, short vectors), on sparse and full packing, the conjugate-invariant ring and a two-primes-per-rescale parameter set; the real evaluator's decoded values (12 bits absolute/relative), log-scale, level, degree and error outcomes must be a behaviour of the specification, which tracks scales symbolically (2^a / prod q_i^e_i).",
    note="Trusted: TLC, the ApproxEval specification (Appendix B.2 of DESIGN.md), lattigo Decryptor/Encoder as projection. Precision losses below 12 bits and mix-ups of same-size primes in the recorded scale are not visible. Additions with ambiguous scale ratios (between 2^-14 and 2^20) are outside the generated contract."),
+ "C07": dict(spec="Encoding / EncodingGen / EncodingTrace", design="DESIGN.md §5 C07",
+   technique="TLA+ spec Encoding (round-trip contracts of the integer and approximate encoders): TLC enumerates the message space Z_17^{<=2}; recorded encode/decode round trips validated by TLC",
+   text="TLC enumerates every message vector of length <= 2 over Z_17 (and checks the contract accepts the exact answer); the real bgv encoder (five plaintext moduli, gap and no gap, boundary integer classes up to 2^64-1 and MinInt64, lengths 0..n, all levels, four unit scales, batched/coefficient, signed/unsigned, fresh/used encoder, products of encodings) and ckks encoder (all slot counts, three scales, 53- and 128-bit precision, four input and two output types, DecodePublic, both rings) are recorded and every output is checked by TLC against the contract.",
+   note="Trusted: TLC, the Encoding specification, math/big residues of boundary integers, float64 conversion of dyadic test values. Tails of long vectors are compared by the harness. The single-slot conjugate-invariant case is a recorded known finding."),
  "C08": dict(spec="Stream / StreamGen / StreamTrace", design="DESIGN.md §5 C08",
    technique="TLA+ spec Stream (wire of segments, entry points, receiver prior state, chunking, faults): TLC exhausts the model and generates the scenarios; real (de)serialisation traces validated by TLC",
    text="TLC model-checks the stream model (composability, prefix consumption) and enumerates every scenario (object x write entry x read entry x prior receiver state x chunking; multi-object streams by simulation); each scenario and a fault sweep (truncation at every offset class, single-byte header corruption, writers failing at sampled offsets, JSON codecs) run on 29 serialisable type classes / 79 values of the real library, and the recorded sizes, counts, digests, consumed bytes, equality and error/panic/allocation outcomes must be a behaviour of the specification.",
